@@ -102,7 +102,7 @@ def cQ(x):
     """Exact rational literal of a float (dyadic) or Fraction or int."""
     from fractions import Fraction
     f = Fraction(x)
-    return '(%d # %d)' % (f.numerator, f.denominator)
+    return '(%d # %d)%%Q' % (f.numerator, f.denominator)
 
 
 def cQs(xs):
